@@ -519,9 +519,10 @@ func wChildEnv(k, v string) (string, bool) {
 
 // wCommand makes an *exec.Cmd whose start launches p
 var wCmdPath = "/bin/wplugin"
+var wCmdDir string
 
 func wCommand(p *wProc) *exec.Cmd {
-	c := &exec.Cmd{Path: wCmdPath, Args: []string{wCmdPath}}
+	c := &exec.Cmd{Path: wCmdPath, Args: []string{wCmdPath}, Dir: wCmdDir}
 	wCmdG[c] = &wCmdGhost{p: p}
 	return c
 }
